@@ -532,3 +532,38 @@ M('c07-wsgi-invalid-content-length-one-byte-allowance', 'C07', 'R6', _R,
   "            # but it had an invalid value. Assume no content.\n            content_length = 1\n")
 M('c07-wsgi-missing-content-length-one-byte-allowance', 'C07', 'R6', _R,
   "            content_length = self.content_length or 0\n", "            content_length = self.content_length or 1\n")
+
+# ------------------------------------------------------------------ wave 9
+_AR = 'falcon/asgi/request.py'
+_ALIAS = "        \"\"\"Alias to :attr:`~.stream`.\"\"\"\n        return self.stream\n"
+# R6 (s9-c07-1): every construction of the ASGI wrapper in the request class passes the declared length
+M('c07-asgi-alias-builds-unbounded-stream-for-transfer-encoding', 'C07', 'R6', _AR, _ALIAS,
+  "        \"\"\"Alias to :attr:`~.stream`.\"\"\"\n        if not self._stream and b'transfer-encoding' in self._asgi_headers:\n"
+  "            self._stream = BoundedStream(self._receive, first_event=self._first_event)\n\n        return self.stream\n")
+M('c07-asgi-alias-builds-stream-with-content-length-none', 'C07', 'R6', _AR, _ALIAS,
+  "        \"\"\"Alias to :attr:`~.stream`.\"\"\"\n        if self._stream is None and self.method == 'PATCH':\n"
+  "            self._stream = BoundedStream(self._receive, first_event=self._first_event, content_length=None)\n\n        return self.stream\n")
+M('c07-asgi-alias-builds-stream-without-first-event', 'C07', 'R6', _AR, _ALIAS,
+  "        \"\"\"Alias to :attr:`~.stream`.\"\"\"\n        if self._stream is None:\n"
+  "            self._stream = BoundedStream(self._receive, content_length=self.content_length)\n\n        return self.stream\n")
+# R3 no loss (s9-c07-2): a read result must not leave the method only inside a lazily consumed object
+_ITER_SELF = "    def __iter__(self) -> BoundedStream:\n        return self\n"
+M('c07-wsgi-iter-drains-body-into-list-iterator', 'C07', 'R3', W, _ITER_SELF,
+  "    def __iter__(self):\n        return iter(self.readlines())\n")
+M('c07-wsgi-iter-drains-body-into-generator-expression', 'C07', 'R3', W, _ITER_SELF,
+  "    def __iter__(self):\n        return (line for line in self.readlines())\n")
+M('c07-wsgi-iter-drains-body-then-iterates-local', 'C07', 'R3', W, _ITER_SELF,
+  "    def __iter__(self):\n        lines = self.readlines()\n        return iter(lines)\n")
+M('c07-wsgi-iter-generator-yields-from-bulk-read', 'C07', 'R3', W, _ITER_SELF,
+  "    def __iter__(self):\n        yield from self.readlines()\n")
+# R1 (s9-c07-3): a direct sized call on the raw stream asks for a size that derives from the live budget
+_NEXT_LINE = "        line = self.readline()\n        if not line:\n            raise StopIteration\n\n        return line\n"
+M('c07-wsgi-next-direct-readline-limited-by-stream-len', 'C07', 'R1', W, _NEXT_LINE,
+  "        if self.eof:\n            raise StopIteration\n\n        line = self.stream.readline(self.stream_len)\n        if not line:\n"
+  "            raise StopIteration\n\n        self._bytes_remaining -= len(line)\n        return line\n")
+M('c07-wsgi-next-direct-readline-limited-by-constant', 'C07', 'R1', W, _NEXT_LINE,
+  "        if self.eof:\n            raise StopIteration\n\n        line = self.stream.readline(8192)\n        if not line:\n"
+  "            raise StopIteration\n\n        self._bytes_remaining -= len(line)\n        return line\n")
+M('c07-wsgi-next-direct-readline-limit-through-local', 'C07', 'R1', W, _NEXT_LINE,
+  "        limit = max(self.stream_len, 1)\n        line = self.stream.readline(limit)\n        if not line:\n"
+  "            raise StopIteration\n\n        self._bytes_remaining -= len(line)\n        return line\n")
